@@ -753,3 +753,82 @@ func ruleEqualSameKind(c *Ctx) {
 	}
 	c.R.Floor("K4-equal-same-kind", n, 9)
 }
+
+// ruleBoundAsPolygon (K5): in every generic measure or encoder (a function with a
+// type switch over orb.Geometry whose results contain no geometry), the Bound
+// arm treats the bound as the polygon it denotes: it converts with ToRing() /
+// ToPolygon() or hands the bound to the package's typed Bound helper.  A
+// hand-written shortcut formula in that arm is where generic and typed results
+// drift apart.
+func ruleBoundAsPolygon(c *Ctx) {
+	p := c.P
+	c.R.Rule("K5: in every function with a type switch over orb.Geometry whose results contain no geometry, the orb.Bound arm calls ToRing()/ToPolygon() on the bound or the package's own typed Bound function (the bound is measured/encoded as the polygon it denotes)")
+	n := 0
+	for _, fn := range p.Funcs() {
+		if len(fn.Blocks) == 0 {
+			continue
+		}
+		res := fn.Signature.Results()
+		returnsGeom := false
+		for i := 0; i < res.Len(); i++ {
+			t := res.At(i).Type()
+			if p.IsGeometry(t) || (p.KindOf(t) != "" && p.KindOf(t) != "Point") {
+				returnsGeom = true
+			}
+			if pt, ok := t.(*types.Pointer); ok {
+				if nt, ok := pt.Elem().(*types.Named); ok && nt.Obj().Name() == "Geometry" {
+					returnsGeom = true // *geojson.Geometry wraps the geometry itself
+				}
+			}
+		}
+		key := ShortKey(FuncKey(fn))
+		if returnsGeom || key == "orb.Equal" || strings.Contains(key, "GeomLength") {
+			continue
+		}
+		for _, b := range fn.Blocks {
+			for _, in := range b.Instrs {
+				ta, ok := in.(*ssa.TypeAssert)
+				if !ok || !ta.CommaOk || !p.IsGeometry(ta.X.Type()) || p.KindOf(ta.AssertedType) != "Bound" {
+					continue
+				}
+				ifi, ok := b.Instrs[len(b.Instrs)-1].(*ssa.If)
+				if !ok {
+					continue
+				}
+				arm := b.Succs[0]
+				n++
+				cons := key + "#arm(Bound)"
+				okCall := ""
+				for _, ab := range fn.Blocks {
+					if !arm.Dominates(ab) {
+						continue
+					}
+					for _, ai := range ab.Instrs {
+						call, ok := ai.(*ssa.Call)
+						if !ok {
+							continue
+						}
+						cal := call.Call.StaticCallee()
+						if cal == nil {
+							continue
+						}
+						nm := cal.Name()
+						if (nm == "ToRing" || nm == "ToPolygon") && cal.Signature.Recv() != nil && p.KindOf(cal.Signature.Recv().Type()) == "Bound" {
+							okCall = "Bound." + nm + "()"
+						}
+						if nm == "Bound" && cal.Signature.Recv() == nil && cal.Pkg == fn.Pkg {
+							okCall = ShortKey(FuncKey(cal))
+						}
+					}
+				}
+				_ = ifi
+				if okCall != "" {
+					c.R.OK("K5-bound-as-polygon", cons, p.InstrPos(ta), "the bound is handled through "+okCall)
+				} else {
+					c.R.Bad("K5-bound-as-polygon", cons, p.InstrPos(ta), "the Bound arm neither converts the bound with ToRing()/ToPolygon() nor calls the typed Bound helper: it computes its own answer, which need not agree with the polygon the bound denotes")
+				}
+			}
+		}
+	}
+	c.R.Floor("K5-bound-as-polygon", n, 7)
+}
